@@ -74,16 +74,27 @@ func upperHex(b []byte) string {
 
 // NT response from an NT hash: every 16-byte hash and 8-byte challenge
 func H_C02_v1_nthash() {
-	hash := vBytes("nthash", 16)
+	// the hash arrives as the first 16 bytes of a larger buffer of the caller's (the result of a hex decode, a field of
+	// a packet): the computation reads it, and only it
+	backing := vBytes("nthash", 32)
+	hash := backing[:16]
+	given := append([]byte{}, backing...)
 	ch := vBytes("challenge", 8)
-	want := refDESL(hash, ch)
-	n, err := NewNTLMv1WithNTHash("D", "u", append([]byte{}, hash...), ch)
+	want := refDESL(append([]byte{}, hash...), ch)
+	n, err := NewNTLMv1WithNTHash("D", "u", hash, ch)
 	vCheck(err == nil, "v1/constructor-ok")
 	r1, err := n.NTResponse()
 	vCheck(err == nil && vBytesEq(r1, want), "v1/NTResponse-equals-DESL")
 	r2, err := n.Hash()
 	vCheck(err == nil && vBytesEq(r2, want), "v1/Hash-equals-DESL")
 	vCheck(vStrEq(n.String(), upperHex(want)), "v1/String-upper-hex")
+	// reading the response does not consume anything: a second read gives the same bytes, and the 16 bytes of the hash
+	// the caller handed over are as they were
+	r3, err := n.Hash()
+	vCheck(err == nil && vBytesEq(r3, want), "v1/second-Hash-equals-the-first")
+	r4, err := n.NTResponse()
+	vCheck(err == nil && vBytesEq(r4, want), "v1/NTResponse-after-Hash-unchanged")
+	vCheck(vBytesEq(backing[:16], given[:16]), "v1/caller's-hash-unchanged")
 	vCover("end")
 }
 
